@@ -259,6 +259,12 @@ func finish(sc *Scenario, tr *Tracer, out *RunResult, sdDur chan time.Duration, 
 			sc.violate("C03", "roles-stuck", "harness roles did not finish within 3s", map[string]string{})
 		}
 	}
+	for _, a := range prog.Api {
+		if a == "queryevent" {
+			time.Sleep(8 * time.Millisecond) // query events that were pending when the service stopped expire now
+			break
+		}
+	}
 	out.Events = tr.Events()
 	out.Callbacks = int(sc.ncb)
 	evaluate(sc, out, prog)
